@@ -40,3 +40,17 @@ Example C14_nonvacuous :
   increment_nonce n = repeat 0%N 16 /\ increment_nonce m = [1; 3; 0; 0; 0]%N ++ repeat 0%N 11 /\
   set_nonce [1; 2; 3]%N = repeat 0%N 13 ++ [1; 2; 3]%N.
 Proof. vm_compute. repeat split. Qed.
+
+(* (T) the C helpers themselves: ascon_aead_increment_nonce and ascon_aead_set_counter of src/aead/ascon-aead-util.c are
+   re-translated from /repo on every run (clang -O1 LLVM IR, all 16 nonce bytes and the 64-bit counter symbolic; the 16-bit carry
+   arithmetic becomes an and/xor/shift network); for ALL nonces / counters the stored bytes equal the specification program
+   (increment: ripple carry from the last byte through all sixteen; set_counter: eight zero bytes then the counter big-endian) *)
+From Coq Require Import String.
+From AsconV Require Import Sym.Wexpr Sym.Pipe Obl.FnObl Gen.TagObl.
+Theorem C14_helpers_translated : forall o, In o nonce_obls ->
+  forall v : list (list bool), widths_of v = fo_widths o ->
+  run BoolAlg (run BoolAlg v (fo_prog o)) (fo_post o) = run BoolAlg v (fo_spec o).
+Proof. exact (fn_obl_sound _ nonce_obls_ok). Qed.
+Print Assumptions C14_helpers_translated.
+Example C14_helpers_present : List.map fo_name nonce_obls = ["ascon_aead_increment_nonce"%string; "ascon_aead_set_counter"%string].
+Proof. reflexivity. Qed.
